@@ -256,6 +256,11 @@ func canonOf(n *simnode.Node) canon {
 
 func histDigest(app *appstate.AppState, addrs []common.Address) string {
 	s := oracle.GlobalText(app) + "\n"
+	// the view's validator registry belongs to the view's height as well (network size, online set, pools, committees
+	// are read from it by everything that validates on the view)
+	if app.ValidatorsCache != nil {
+		s += "registry: " + oracle.ValidatorsText(app.ValidatorsCache, addrs) + "\n"
+	}
 	for _, a := range addrs {
 		id := app.State.GetIdentity(a)
 		s += fmt.Sprintf("%x bal=%v stake=%v st=%d nonce=%d ep=%d val=%v on=%v\n", a[:4], app.State.GetBalance(a), app.State.GetStakeBalance(a), id.State, app.State.GetNonce(a), app.State.GetEpoch(a), app.IdentityState.IsValidated(a), app.IdentityState.IsOnline(a))
